@@ -16,6 +16,12 @@ def check(prop, tier, seed, replay=None):
     rep.cov['rule'] = ('layout_stride -> layout_left/right conversion for 24 (target, source) index type pairs x rank 0-4; stride tuples canonical / one stride off / permuted / '
                        'canonical of the other layout, zero and one extents included; each conversion runs in a child process of an assertion-enabled build (exit status observed) '
                        'and of an NDEBUG build, each also with the library\'s _MDSPAN_DEBUG macro defined; non-trivial = rank>=1 admissible; distinct by op line')
+    from . import sites as SITES
+    got, new, gone = SITES.compare(C.os.path.join(C.REPO, 'include'), C.os.path.join(C.LEAN, 'debug_sites.json'))
+    new = [x for x in new if 'layout_left.hpp' in x[0] or 'layout_right.hpp' in x[0]]; gone = [x for x in gone if 'layout_left.hpp' in x[0] or 'layout_right.hpp' in x[0]]
+    if new or gone:
+        rep.broke(dict(correspondence='the stride-walk check of layout_left / layout_right extracted from the source vs the modelled one (walkLeft / walkRight, lean/debug_sites.json)',
+                       new_or_changed=[list(x) for x in new][:4], gone=[list(x) for x in gone][:4]))
     cases = []
     if replay: cases = [tuple(replay['case'])]
     else:
